@@ -14,7 +14,8 @@ Merges == <<
   <<"Float:-0", "Float:+0">>, <<"Float:nan_b", "Float:nan_a">>, <<"Float:nan_neg", "Float:nan_a">>,
   <<"Double:-0", "Double:+0">>, <<"Double:nan_b", "Double:nan_a">>,
   <<"Json:ba", "Json:ab">>, <<"Decimal:1.00", "Decimal:1.0">>, <<"BigDecimal:1.00", "BigDecimal:1.0">>,
-  <<"Vector:a2", "Vector:a">>, <<"Array:int_12b", "Array:int_12">>, <<"Array:f_nan2", "Array:f_nan">>, <<"Array:nested_b", "Array:nested">> >>
+  <<"Vector:a2", "Vector:a">>, <<"Array:int_12b", "Array:int_12">>, <<"Array:f_nan2", "Array:f_nan">>, <<"Array:nested_b", "Array:nested">>,
+  <<"ChronoDateTimeWithTimeZone:z2", "ChronoDateTimeWithTimeZone:z0">>, <<"TimeDateTimeWithTimeZone:z2", "TimeDateTimeWithTimeZone:z0">> >>
 Class(n) == IF \E i \in DOMAIN Merges : Merges[i][1] = n
             THEN Merges[CHOOSE i \in DOMAIN Merges : Merges[i][1] = n][2] ELSE n
 RECURSIVE UpTo(_, _, _)
@@ -26,7 +27,9 @@ Eq(a, b) == Class(a) = Class(b)
 \* payloads that denote the same mathematical value in different spellings: the property does not say
 \* whether they are equal (the crate compares JSON by its serialisation, so they are not); either answer is
 \* accepted as long as equality stays an equivalence and agrees with hashing
-SoftGroups == { {"Json:f+0", "Json:f-0", "Json:i0"}, {"Json:arr+0", "Json:arr-0"}, {"Json:1", "Json:1.0"} }
+\* (likewise one instant written with two UTC offsets: chrono and time compare instants, so they are equal)
+SoftGroups == { {"Json:f+0", "Json:f-0", "Json:i0"}, {"Json:arr+0", "Json:arr-0"}, {"Json:1", "Json:1.0"},
+                {"ChronoDateTimeWithTimeZone:z0", "ChronoDateTimeWithTimeZone:z2"}, {"TimeDateTimeWithTimeZone:z0", "TimeDateTimeWithTimeZone:z2"} }
 Soft(a, b) == \E g \in SoftGroups : a \in g /\ b \in g
 HashKey(a) == <<VariantOfName(a), Class(a)>>
 =============================================================================
